@@ -1,4 +1,5 @@
 import Cascette.Props.C01
+import Cascette.Proofs.BlteTie
 open Cascette.Props.C01
 #print axioms blte_roundtrip_full_counterexample
 #print axioms blte_roundtrip_partial
@@ -24,3 +25,18 @@ open Cascette.Props.C01
 #print axioms frame_container_rejected
 #print axioms nested_mode_byte_rejected
 #print axioms nested_container_is_content
+-- translator tie: header arithmetic / wire constants extracted from the current Rust source = what the model computes with
+#print axioms Cascette.Proofs.BlteTie.magic_tie
+#print axioms Cascette.Proofs.BlteTie.mode_byte_tie
+#print axioms Cascette.Proofs.BlteTie.header_size_tie
+#print axioms Cascette.Proofs.BlteTie.build_header_size_tie
+#print axioms Cascette.Proofs.BlteTie.header_size_ext_tie
+#print axioms Cascette.Proofs.BlteTie.chunk_count_limit_tie
+#print axioms Cascette.Proofs.BlteTie.count_bytes_tie
+#print axioms Cascette.Proofs.BlteTie.count_read_tie
+#print axioms Cascette.Proofs.BlteTie.table_flag_tie
+#print axioms Cascette.Proofs.BlteTie.table_flag_read_tie
+#print axioms Cascette.Proofs.BlteTie.row_size_tie
+#print axioms Cascette.Proofs.BlteTie.default_chunk_size_tie
+#print axioms Cascette.Proofs.BlteTie.enc_floor_tie
+#print axioms Cascette.Proofs.BlteTie.enc_header_tie
